@@ -71,25 +71,29 @@ c.ensures('text-space-text-newline-text', "out_is(x, ' ', y, '\\n', z, '\\n') or
 
 # ---- printf
 for fmt, nfields in (('{} and {}\\n', 2), ('{1}-{0} {hue:.1f} {v}', 2), ('no fields', 0), ('{:>6} {saturation} {w}', 1)):
-    c = contract(VI, 'VmIo._printf', serves=['C19'], unwrap=1, name='VmIo._printf[%r]' % fmt)
-    def _setup(b, case, fmt=fmt, nfields=nfields):
+  for vkind in ('int', 'str'):
+    if vkind == 'str' and not nfields:
+        continue
+    c = contract(VI, 'VmIo._printf', serves=['C19'], unwrap=1, name='VmIo._printf[%r,%s values]' % (fmt, vkind))
+    def _setup(b, case, fmt=fmt, nfields=nfields, vkind=vkind):
         m = lib.machine(b, 'LOGICAL', lib.light_set_with(b, {}))
         io = m.attrs['_vm_io']
-        vals = [b.sym('int', 'p%d' % i) for i in range(nfields)]
+        vals = [b.sym(vkind, 'p%d' % i) for i in range(nfields)]
         io.attrs['_unnamed'].items.extend(vals)
         reg = lib.sym_regs(b, m, 'real', ('hue', 'saturation'))
-        v, w = b.sym('int', 'var_v'), b.sym('int', 'var_w')
+        v, w = b.sym('int', 'var_v'), b.sym(vkind, 'var_w')
         m.attrs['_call_stack'].attrs['_top'].attrs['vars'].d.update({'v': v, 'w': w})
-        rec = PyList()
         from pyvc.values import Opaque
-        out = Opaque('output', {'out': lambda I_, o, a, k: rec.items.append(a[0])})
+        calls = b.ghost('Calls', PyList())
+        out = Opaque('output', {'out': lambda I_, o, a, k: calls.items.append((o, 'out', tuple(a)))})
+        out.native = {'kind': 'generic'}
         inst = b.new(('bardolph.vm.instruction', 'Instruction'), b.enum('bardolph.vm.vm_codes', 'OpCode', 'OUT'),
                      b.enum('bardolph.vm.vm_codes', 'IoOp', 'PRINTF'), fmt)
-        return {'self': io, 'inst': inst, 'output': out, '_rec': rec, '_vals': PyList(list(vals)), '_reg': reg, '_v': v, '_w': w}
+        return {'self': io, 'inst': inst, 'output': out, '_vals': PyList(list(vals)), '_reg': reg, '_v': v, '_w': w}
     c.setup(_setup)
     real = fmt.replace('\\n', '\n')
     named = {'{1}-{0} {hue:.1f} {v}': "hue=_reg.hue, v=_v", '{:>6} {saturation} {w}': "saturation=_reg.saturation, w=_w"}.get(fmt, '')
     args = ', '.join('_vals[%d]' % i for i in range(nfields))
     call = ', '.join(x for x in (args, named) if x)
-    c.ensures('as-str-format-would', "len(_rec) == 1 and _rec[0] == %r.format(%s)" % (real, call))
+    c.ensures('as-str-format-would', "len(ghost('Calls')) == 1 and ghost('Calls')[0][2][0] == %r.format(%s)" % (real, call))
     c.ensures('pending-values-consumed', 'len(self._unnamed) == 0')
